@@ -99,3 +99,21 @@ Theorem C06_source_iterator_methods :
   methods_of "FusedIterator for GenericArrayIter<T,N>" = Some [].
 Proof. repeat split. Qed.
 
+
+(* ---- T1: the one-expression bodies this property's code consists of besides the modelled core, as they stand
+        in the source now (coq/gen/GenSigs.v gen_thin_bodies) ---- *)
+From Coq Require Import String.
+From GA Require Import SigTie.
+From GAGen Require Import GenSigs.
+Local Open Scope string_scope.
+
+Theorem C06_source_thin_bodies :
+  thin_of "GenericArrayIter<T,N>" "as_slice" = Some "unsafe { self . array . get_unchecked (self . index .. self . index_back) }" /\
+  thin_of "GenericArrayIter<T,N>" "as_mut_slice" = Some "unsafe { self . array . get_unchecked_mut (self . index .. self . index_back) }" /\
+  thin_of "IntoIterator for GenericArray<T,N>" "into_iter" = Some "GenericArrayIter { array : ManuallyDrop :: new (self) , index : 0 , index_back : N :: USIZE , }" /\
+  thin_of "fmt::Debug for GenericArrayIter<T,N>" "fmt" = Some "f . debug_tuple (""GenericArrayIter"") . field (& self . as_slice ()) . finish ()" /\
+  thin_of "Iterator for GenericArrayIter<T,N>" "count" = Some "self . len ()" /\
+  thin_of "Iterator for GenericArrayIter<T,N>" "last" = Some "self . next_back ()" /\
+  thin_of "DoubleEndedIterator for GenericArrayIter<T,N>" "next_back" = Some "if self . index < self . index_back { self . index_back -= 1 ; unsafe { Some (ptr :: read (self . array . get_unchecked (self . index_back))) } } else { None }" /\
+  thin_of "ExactSizeIterator for GenericArrayIter<T,N>" "len" = Some "self . index_back - self . index".
+Proof. repeat split. Qed.
